@@ -49,9 +49,10 @@ def gen_survivor(rng):
     survivors = [["org", rng.choice(["Org", "Dept"]), f"s{i}"] for i in range(rng.randint(1, 2))]
     if rng.random() < 0.6:
         survivors.append(["person", rng.choice(["Person", "Employee"]), "sp0"])
-    rounds = [[rng.choice(["sub_org_of", "part_of", "works_for", "member_of"]) for _ in range(rng.randint(1, 4))]
-              for _ in range(rng.randint(1, 3))]
-    final = [[rng.choice(["sub_org_of", "part_of", "works_for", "member_of"]), rng.randrange(10), rng.randrange(10)] for _ in range(rng.randint(1, 5))]
+    gk = ["sub_org_of", "part_of", "works_for", "member_of", "head_of", "head_of", "person_works_for", "members_add"]
+    rounds = [[rng.choice(gk) for _ in range(rng.randint(1, 4))] for _ in range(rng.randint(1, 3))]
+    fk = ["sub_org_of", "part_of", "works_for", "member_of", "new_works_for", "new_head_of", "new_members_add", "new_member_of"]
+    final = [[rng.choice(fk), rng.randrange(10), rng.randrange(10)] for _ in range(rng.randint(1, 5))]
     return {"mode": "survivor", "survivors": survivors, "rounds": rounds, "final": final, "new_orgs": rng.randint(1, 3),
             "sweep": "sweep"}
 
@@ -317,6 +318,21 @@ def _garbage_round(om, named, kinds, C):
             persons[0].member_of.append(g)
             persons[0].member_of = []
             C["survivor_relations_to_garbage"] += 1
+        elif kind in ("head_of", "person_works_for", "members_add") and orgs:
+            # the garbage is the SOURCE (a role / a person) related to a surviving organisation; the inverse relation
+            # holds it strongly in org.members until it is taken out again
+            s_ = orgs[i % len(orgs)]
+            gp = om.Person(f"gp{i}")
+            if kind == "head_of":
+                gc_ = om.Chief(gp)
+                gc_.head_of = s_
+            elif kind == "person_works_for":
+                gp.works_for = s_
+            else:
+                s_.members.add(gp)
+            s_.members = set()
+            C["survivor_relations_to_garbage"] += 1
+            C["garbage_sources_of_survivors"] += 1
 
 
 def run_survivor(spec, om, with_history, C, problems):
@@ -349,6 +365,27 @@ def run_survivor(spec, om, with_history, C, problems):
             elif kind == "member_of" and persons:
                 persons[0].member_of.append(news[j % len(news)])
                 n_assert += 1
+            elif kind in ("new_works_for", "new_head_of", "new_members_add", "new_member_of") and orgs:
+                # a new person / role (which may sit on a freed node index) is related to a surviving organisation
+                np_ = named.setdefault(f"np{j % 3}", None) or om.Person(f"np{j % 3}")
+                named[f"np{j % 3}"] = np_
+                s_ = orgs[i % len(orgs)]
+                if kind == "new_works_for":
+                    if np_.works_for is None:
+                        np_.works_for = s_
+                        n_assert += 1
+                elif kind == "new_head_of":
+                    key_ = f"nc{j % 3}"
+                    if key_ not in named:
+                        named[key_] = om.Chief(np_)
+                        named[key_].head_of = s_
+                        n_assert += 1
+                elif kind == "new_members_add":
+                    s_.members.add(np_)
+                    n_assert += 1
+                else:
+                    np_.member_of.append(s_)
+                    n_assert += 1
         except Exception as e:
             errors.append(f"{kind}: {type(e).__name__}: {e}"[:160])
     rel, fields = observe(om, named, SymbolGraph())
